@@ -532,6 +532,7 @@ struct OpTable {
   const OpEntry* entries;
   int count;
 };
+void run_exit_queue();  // defined by the C20 runtime: runs ops queued for static destruction time
 void register_ops(const OpEntry* entries, int count);         // called by generated TUs' registrars (ordinary objects)
 void register_ops_inline(const OpEntry* entries, int count);  // same, from C++17 inline-variable registrars (C19 API sweep)
 
